@@ -189,3 +189,35 @@ pub fn install_logger() {
 	let _ = log::set_logger(l);
 	log::set_max_level(lvl);
 }
+
+struct SinkLogger;
+
+impl log::Log for SinkLogger {
+	fn enabled(&self, _m: &log::Metadata) -> bool {
+		true
+	}
+	fn log(&self, r: &log::Record) {
+		// format the arguments (that is where a logging statement can panic), discard the text
+		use std::fmt::Write;
+		let mut s = String::new();
+		let _ = write!(s, "{}", r.args());
+		std::hint::black_box(&s);
+	}
+	fn flush(&self) {}
+}
+
+/// Install a logger that evaluates and discards every log line; `log_level(on)` then switches
+/// the library's debug logging on or off per case. A panic inside a log statement of a library
+/// call is a panic of that call.
+pub fn install_sink_logger() {
+	static L: SinkLogger = SinkLogger;
+	let _ = log::set_logger(&L);
+	log::set_max_level(log::LevelFilter::Off);
+}
+
+pub fn log_level(debug_on: bool) {
+	if std::env::var("PDBV_LOG").is_ok() {
+		return
+	}
+	log::set_max_level(if debug_on { log::LevelFilter::Debug } else { log::LevelFilter::Off });
+}
